@@ -2,7 +2,9 @@ package rules
 
 import (
 	"fmt"
+	"go/token"
 	"go/types"
+	"os"
 	"sort"
 	"strings"
 
@@ -817,7 +819,15 @@ func ruleDFS(rule string) RuleFn {
 			})
 			okStart := false
 			for _, k := range methodCalls(top, "dig/internal/graph.isAcyclic") {
-				if strings.HasPrefix(an.Norm(k.Common().Args[1]), "φ") && an.Norm(k.Common().Args[0]) == "p:g" {
+				g0 := an.Norm(k.Common().Args[0])
+				if g0 != "p:g" {
+					// the graph may travel in a local struct (search := cycleSearch{g: g, ...}; isAcyclic(search.g, ...))
+					g0 = an.Norm(localFieldValue(k.Common().Args[0]))
+				}
+				if os.Getenv("VERIF_DEBUG_FACTS") == "g-dfs" {
+					fmt.Fprintln(os.Stderr, "g-dfs start:", an.Norm(k.Common().Args[1]), g0)
+				}
+				if strings.HasPrefix(an.Norm(k.Common().Args[1]), "φ") && g0 == "p:g" {
 					okStart = true
 				}
 			}
@@ -907,4 +917,46 @@ func ruleEdges(rule string) RuleFn {
 			c.Check(good, rule, "EdgesFrom: a constructor node has the edges of all its parameters", "range w.paramList.Params: getParamOrder(gh, param)", "not every parameter of a constructor contributes edges", nil, nil)
 		}
 	}
+}
+
+// localFieldValue: v is a load of a field of a local struct variable that is stored exactly once in the function
+// (`search := cycleSearch{g: g, ...}` ... `search.g`): the stored value stands for it. Anything else is returned as is.
+func localFieldValue(v ssa.Value) ssa.Value {
+	ld, ok := v.(*ssa.UnOp)
+	if !ok || ld.Op != token.MUL {
+		return v
+	}
+	fa, ok := ld.X.(*ssa.FieldAddr)
+	if !ok {
+		return v
+	}
+	al, ok := fa.X.(*ssa.Alloc)
+	if !ok {
+		return v
+	}
+	var val ssa.Value
+	n := 0
+	whole := false
+	for _, r := range an.Referrers(al) {
+		switch x := r.(type) {
+		case *ssa.FieldAddr:
+			if x.Field != fa.Field {
+				continue
+			}
+			for _, r2 := range an.Referrers(x) {
+				if st, ok := r2.(*ssa.Store); ok && st.Addr == ssa.Value(x) {
+					val = st.Val
+					n++
+				}
+			}
+		case *ssa.Store:
+			if x.Addr == ssa.Value(al) {
+				whole = true
+			}
+		}
+	}
+	if n == 1 && !whole {
+		return val
+	}
+	return v
 }
